@@ -57,6 +57,7 @@ var nontrivialRules = map[string]func(r *Runner) bool{
 	"C03": func(r *Runner) bool { return r.Cnt["images_ok"] > 3 && len(r.States) > 2 },
 	"C04": func(r *Runner) bool { return r.Cnt["images_ok"] > 3 && r.Cnt["batches"] > 0 },
 	"C07": func(r *Runner) bool { return r.Cnt["images_ok"] > 3 && r.Cnt["merges"] > 0 },
+	"C11": func(r *Runner) bool { return r.Cnt["df_records"] > 1 && r.Cnt["df_verifications"] > 1 },
 	"C12": func(r *Runner) bool { return r.Cnt["damage_images"] > 10 && len(r.States) > 1 },
 	"C08": func(r *Runner) bool { return r.Cnt["sched_switches"] > 1 && r.Cnt["conc_puts"]+r.Cnt["conc_dels"] > 1 },
 	"C09": func(r *Runner) bool { return r.Cnt["sched_switches"] > 1 },
@@ -70,9 +71,12 @@ var nontrivialRules = map[string]func(r *Runner) bool{
 	"C13": func(r *Runner) bool {
 		return r.Cnt["always_checks"]+r.Cnt["threshold_checks"]+r.Cnt["sync_batch_checks"]+r.Cnt["all_synced_checks"] > 1
 	},
+	"C14": func(r *Runner) bool { return r.Cnt["configs_compared"] > 0 && r.Cnt["transcript_entries"] > 5 },
 	"C15": func(r *Runner) bool { return r.Cnt["puts"]+r.Cnt["batch_ops"] > 2 },
 	"C17": func(r *Runner) bool { return r.Cnt["stat_checks"] > 2 && r.Cnt["overwrites"]+r.Cnt["deletes_present"] > 0 },
 	"C18": func(r *Runner) bool { return r.Cnt["hint_checks"] > 0 && r.Cnt["hint_entries"] > 1 },
+	"C16": func(r *Runner) bool { return r.Cnt["opens_ok"] > 0 && r.Cnt["opens_rejected"]+r.Cnt["opens_failed_other"] > 0 },
+	"C19": func(r *Runner) bool { return r.Cnt["dt_commands"] > 5 },
 	"C20": func(r *Runner) bool { return (r.Cnt["backups"] > 0 && len(r.States) > 2) || r.Cnt["conc_backups"] > 0 },
 }
 
@@ -83,6 +87,7 @@ var NontrivialRuleText = map[string]string{
 	"C03": "run has >=2 acknowledged mutations and >=4 crash images whose recovery was judged; distinct = distinct hash of the executed case; every journal position of a run is a process-crash image, a seeded subset also gets power-loss cuts",
 	"C04": "run has >=1 committed batch and >=4 judged crash images; distinct = distinct case hash",
 	"C07": "run has >=1 successful Merge and >=4 judged crash images inside Merge / the adopting Open (plus their second-level images); distinct = distinct case hash",
+	"C11": "run wrote >=2 records through both back-ends and verified them at least twice (before and after reopen); distinct = distinct hash of the executed case; the thorough tier walks start offset = runIndex mod 32768 with all 19 end distances -9..+9 per run",
 	"C12": "run built a database with >=1 acknowledged mutation and judged >10 damaged images of it; distinct = distinct hash of the executed case; bit flips are complete for runs whose files total <= the flipall knob (counted in exhaustive_flip_runs), sampled otherwise",
 	"C08": "run had >=2 context switches among clients and >=2 concurrent writes; distinct = distinct hash of (programs, configuration, explicit schedule); interleavings counted separately as distinct (task, point kind, lock id) sequences",
 	"C09": "run had >=2 context switches among clients issuing the listed calls; distinct = distinct hash of (programs, configuration, explicit schedule)",
@@ -90,8 +95,11 @@ var NontrivialRuleText = map[string]string{
 	"C06": "case has >=1 successful Merge followed by an adopting restart; distinct = distinct case hash",
 	"C10": "case has >=1 iterator session over >=2 visible keys; distinct = distinct case hash",
 	"C13": "case reached >=2 policy-invariant evaluations (Always / Threshold / Sync batch / Sync()/Close()); distinct = distinct case hash",
+	"C14": "one program of >5 transcript entries executed under >=2 configurations; distinct = distinct hash of (program, configuration tuple)",
 	"C15": "case made >=3 writes through the reused, poisoned caller buffers; distinct = distinct case hash",
 	"C17": "case has >=3 exact Stat recomputations and >=1 overwrite or delete; distinct = distinct case hash",
 	"C18": "case has >=1 hint file with >=2 entries compared entry by entry with the merged files; distinct = distinct case hash",
+	"C16": "run has >=1 successful Open and >=1 rejected or failing Open; distinct = distinct hash of (party programs, explicit schedule)",
+	"C19": "command sequence with >5 judged commands; distinct = distinct hash of the executed case (commands, keys, clock steps)",
 	"C20": "case has >=1 backup of a database with >=2 acknowledged mutations; distinct = distinct case hash",
 }
